@@ -91,6 +91,7 @@ func fillMid(g *gen) reflect.Value {
 type typedExpr struct {
 	typed, generic string
 	nav            bool
+	cmp            bool // compared with the generic document in Go only (not sent to the Lean typed model)
 }
 
 func typedCase(seed uint64, idx int) (g *gen, doc interface{}, generic interface{}, exprs []typedExpr) {
@@ -135,6 +136,16 @@ func typedCase(seed uint64, idx int) (g *gen, doc interface{}, generic interface
 		}
 		lists.Index(i).Set(l)
 	}
+	aliased := false
+	if nums.Len() >= 2 && g.r.chance(30) {
+		aliased = true
+		// slices that share one backing array (sub-slices of Nums)
+		m := 1 + g.r.intn(3)
+		lists = reflect.MakeSlice(reflect.SliceOf(reflect.SliceOf(reflect.TypeOf(float64(0)))), m, m)
+		for i := 0; i < m; i++ {
+			lists.Index(i).Set(nums.Slice(0, g.r.intn(nums.Len())))
+		}
+	}
 	root.Field(7).Set(lists)
 	n = g.r.intn(5)
 	strs := reflect.MakeSlice(reflect.SliceOf(reflect.TypeOf("")), n, n)
@@ -164,6 +175,15 @@ func typedCase(seed uint64, idx int) (g *gen, doc interface{}, generic interface
 	}
 	js, _ := json.Marshal(doc)
 	json.Unmarshal(js, &generic)
+	if aliased {
+		// length() must agree with the generic document (the property says so); the others must not panic
+		for _, e := range []string{"[length(Nums), length(Lists[0]), length(Nums)]", "[length(Lists[0]), length(Nums)]", "Lists[*].length(@)"} {
+			exprs = append(exprs, typedExpr{typed: e, generic: e, cmp: true})
+		}
+		for _, e := range []string{"[reverse(Lists[0]), reverse(Nums)]", "[sum(Nums), sum(Lists[0])]"} {
+			exprs = append(exprs, typedExpr{typed: e, generic: e})
+		}
+	}
 	ne := 3 + g.r.intn(4)
 	for i := 0; i < ne; i++ {
 		if g.r.chance(70) {
@@ -402,7 +422,7 @@ func doTyped(seedS, idxS string) outcome {
 			parts = append(parts, "panic")
 			continue
 		}
-		if !e.nav {
+		if !e.nav && !e.cmp {
 			parts = append(parts, "nopanic")
 			continue
 		}
